@@ -99,7 +99,7 @@ def hazards(ctx: Ctx, funcs, clause: str = "S0"):
     """Generic, repository-tuned hazard rules over the functions a property owns (zero reports package-wide on
     the repaired tree): G19 known-rank contradictions, G20 -inf sentinel times a 0/1 mask, G21 unsigned NumPy
     scalars decremented and sign-tested, G22 constructor reads before initialisation, G23 truncating index slices
-    whose bound is computed locally, G27 strided views with an absolute storage offset."""
+    whose bound is computed locally, G27 strided views with an absolute storage offset, G25 handler/raiser agreement, G26 boundary-vs-position index ranges."""
     import ast as _ast
     from rules.initorder import init_reads_before_set
     from rules.narrowint import NarrowInt
@@ -107,6 +107,8 @@ def hazards(ctx: Ctx, funcs, clause: str = "S0"):
     from rules.sentinel import SentinelTaint
     from rules.trunc import TruncAnalysis
     from rules.strided import absolute_offset_views
+    from rules.excmatch import ArgcheckRaises, mismatched_handlers
+    from rules.boundary import length_equals_position
     from sa.astutil import u
     col = ctx.col
     n = 0
@@ -150,6 +152,21 @@ def hazards(ctx: Ctx, funcs, clause: str = "S0"):
                    (f"`{u(tb[0]['node'])}` slices an index range of extent {tb[0]['extents']} to `{tb[0]['k']}` entries "
                     f"without a cover (extent is not a max including it, no dominating guard)") if tb else "", rel,
                    tb[0]["node"].lineno if tb else f.line, sample=[u(s_["node"]) for s_ in ta.sites][:4], nontrivial=False)
+        acr = getattr(ctx, "_acr", None)
+        if acr is None:
+            acr = ctx._acr = ArgcheckRaises(ctx.pkg)
+        mh, seen_try = mismatched_handlers(ctx.pkg, f, acr)
+        if seen_try:
+            col.ob("G25", clause, f"{where}::handlers-catch-what-the-helper-raises", not mh,
+                   (f"`{mh[0][1]}` raises {mh[0][2]} but the enclosing try only catches {mh[0][3]}: the fallback branch is "
+                    f"unreachable") if mh else "", rel, mh[0][0].lineno if mh else f.line, nontrivial=False)
+        lp = length_equals_position(f)
+        if lp:
+            blp = [x for x in lp if not x["ok"]]
+            col.ob("G26", clause, f"{where}::lengths-marked-in-boundary-space", not blp,
+                   (f"`{u(blp[0]['node'])}` marks a length (0..T) by equality in an index range of extent "
+                    f"`{blp[0]['extent']}`: the boundary T is never marked") if blp else "", rel,
+                   blp[0]["node"].lineno if blp else f.line, nontrivial=False)
         sv = absolute_offset_views(f)
         if sv:
             bsv = [x for x in sv if not x["ok"]]
